@@ -531,6 +531,9 @@ def name_table(rng, used_hint=()):
     if rng.random() < 0.2 and pre:
         pre += [rng.choice(pre)]
     rng.shuffle(pre)
+    # entry 0 doubles as the third fixed slot of a factory's property table (observed in the fixtures): keep property names away from it
+    if pre and pre[0] in MOVIE_NAMES + KEY_NAMES + PROPS:
+        pre = ["exitFrame"] + pre
     return pre[:200]
 
 
